@@ -17,8 +17,8 @@ import (
 
 	"github.com/caddyserver/caddy/v2"
 	revocation "github.com/gr33nbl00d/caddy-revocation-validator"
-	"github.com/gr33nbl00d/caddy-revocation-validator/crl"
 	"github.com/gr33nbl00d/caddy-revocation-validator/core"
+	"github.com/gr33nbl00d/caddy-revocation-validator/crl"
 	"github.com/gr33nbl00d/caddy-revocation-validator/crl/crlloader"
 	"github.com/gr33nbl00d/caddy-revocation-validator/crl/crlrepository"
 	"github.com/gr33nbl00d/caddy-revocation-validator/crl/crlstore"
@@ -66,10 +66,10 @@ type Result struct {
 }
 
 type NodeCfg struct {
-	Mode            string   // "" = unset
-	Storage         string   // "", "memory", "disk"
-	UpdateInterval  string   // "" = default 30m
-	SigMode         string   // "", "verify", "verify_log", "none"
+	Mode            string // "" = unset
+	Storage         string // "", "memory", "disk"
+	UpdateInterval  string // "" = default 30m
+	SigMode         string // "", "verify", "verify_log", "none"
 	CRLUrls         []string
 	CRLFiles        []string
 	TrustedSigFiles []string
@@ -84,16 +84,16 @@ type NodeCfg struct {
 }
 
 type Node struct {
-	Name     string
-	Cfg      NodeCfg
-	WorkDir  string
+	Name      string
+	Cfg       NodeCfg
+	WorkDir   string
 	WorkDirAs string // when set: how the configuration spells the work_dir (trailing slash, ./ prefix, doubled slash)
-	V        *revocation.CertRevocationValidator
-	ProvErr  error
-	Provd    bool
-	Dead     bool
-	Interval time.Duration
-	provDone chan struct{}
+	V         *revocation.CertRevocationValidator
+	ProvErr   error
+	Provd     bool
+	Dead      bool
+	Interval  time.Duration
+	provDone  chan struct{}
 }
 
 // syncProvisioned gives the race detector the one happens-before edge the deployment guarantees:
